@@ -24,6 +24,9 @@ def run(job):
                W.amounts_grid()[1:3] + W.amounts_grid()[5:7] +
                W.amounts_grid()[8:10] + list(job.extra)[:4]) + [Decimal("39.37007874015748031496062992125984251968503937007874015748031")]
     job.bound = f"{len(groups)} types x unit pairs x {len(amounts)}^2 amounts x 6 operators"
+    if not job.shard:
+        symbol_collisions(job)
+        after_allocate(job)
     for g in groups:
         if quick:
             g = g[:3]
@@ -68,3 +71,56 @@ def run(job):
         job.case("qty/sorted", len(qs),
                  all(O.refval(s[i]) <= O.refval(s[i + 1]) for i in range(len(s) - 1)),
                  "", "")
+
+
+def symbol_collisions(job):
+    """unit pairs whose concatenated symbols coincide ('m'+'mm' == 'mm'+'m',
+    'a'+'cm²' == 'ac'+'m²', 'dm'+'in' == 'd'+'min'), used one after the other
+    in one process: every result must be the one a fresh process gives"""
+    from quantity.predefined import (METRE, MILLIMETRE, ARE, SQUARE_CENTIMETRE,
+                                     ACRE, SQUARE_METRE, DECIMETRE, INCH, DAY,
+                                     MINUTE)
+    seqs = [((METRE, MILLIMETRE), (MILLIMETRE, METRE)),
+            ((MILLIMETRE, METRE), (METRE, MILLIMETRE)),
+            ((ARE, SQUARE_CENTIMETRE), (ACRE, SQUARE_METRE)),
+            ((ACRE, SQUARE_METRE), (ARE, SQUARE_CENTIMETRE)),
+            ((DECIMETRE, INCH), (DAY, MINUTE)),
+            ((DAY, MINUTE), (DECIMETRE, INCH))]
+    for seq in seqs:
+        for ua, ub in seq:
+            for a, b in ((1, 5), (Fraction(1, 3), Fraction(1000, 3)), (-2, 7)):
+                x, y = a * ua, b * ub
+                vx, vy = O.refval(x), O.refval(y)
+                for name, op in OPS:
+                    job.case(f"collision/{name}", (repr(x), repr(y)),
+                             op(x, y) is op(vx, vy), "", "")
+                s = x + y
+                job.case("collision/add", (repr(x), repr(y)),
+                         O.refval(s) == vx + vy and s.unit is ua, repr(s), "")
+                c = x.convert(ub)
+                job.case("collision/convert", (repr(x), ub.symbol),
+                         O.refval(c) == vx and c.unit is ub, repr(c), "")
+                job.case("collision/unit-order", (ua.symbol, ub.symbol),
+                         (ua < ub) is (O.chain_scale(ua) < O.chain_scale(ub)) and
+                         (ua > ub) is (O.chain_scale(ua) > O.chain_scale(ub)),
+                         "", "")
+
+
+def after_allocate(job):
+    """portions whose amounts were adjusted in place by allocate() compare by
+    their actual value (no stale cached reference value)"""
+    from quantity.predefined import BIT, BYTE, KILOBIT
+    W.set_mode("ROUND_HALF_EVEN")
+    for q, ratios in ((10 * BIT, [1, 1, 1]), (7 * BYTE, [1, 1, 1, 1, 1]),
+                      (1 * KILOBIT, [3, 3, 1]), (-10 * BIT, [1, 1, 1])):
+        portions, rem = q.allocate(ratios)
+        others = [k * u for u in (BIT, BYTE) for k in (0, 1, 3, Fraction(3, 8), 4,
+                                                       Fraction(1, 2), -3, -4)]
+        for p in portions + [rem]:
+            vp = O.refval(p)
+            for y in others + [pp.convert(BYTE) for pp in portions]:
+                vy = O.refval(y)
+                for name, op in OPS:
+                    job.case(f"after-allocate/{name}", (repr(p), repr(y)),
+                             op(p, y) is op(vp, vy) and op(y, p) is op(vy, vp),
+                             "", "")
